@@ -675,6 +675,76 @@ func metaColocatedScenario() string {
 	return fmt.Sprintf("c09 script meta-colocated %s,%s,%s,%s,%s unavailable=%d", r1, r2, r3, r4, r5, unavailable)
 }
 
+// mergeRaceScenario (C04 / C09): two neighbouring regions are merged while a request is in flight
+// on each of them; both re-establishments look the merged region up at the same moment, one of them
+// puts it into the location cache and the other finds it already there. Both waiting requests
+// must be released and served by the merged region.
+func mergeRaceScenario() string {
+	setSleepOverride(fastBackoff)
+	defer setSleepOverride(nil)
+	c := newSimCluster()
+	a := c.addRegion(nil, []byte("t"), nil, []byte("m"), "rs1:1")
+	b := c.addRegion(nil, []byte("t"), []byte("m"), nil, "rs1:1")
+	sc := newSimClient(c)
+	defer sc.cl.Close()
+	get := func(k string) string {
+		ctx, cancel := context.WithTimeout(context.Background(), 4*time.Second)
+		defer cancel()
+		g, _ := hrpc.NewGet(ctx, []byte("t"), []byte(k))
+		_, err := sc.cl.Get(g)
+		return classOf(err)
+	}
+	w1, w2 := get("a"), get("x")
+	c.mu.Lock()
+	var keep []*simRegion
+	for _, r := range c.regions {
+		if r != a && r != b {
+			keep = append(keep, r)
+		}
+	}
+	c.regions = keep
+	c.metaHold = make(chan struct{})
+	hold := c.metaHold
+	c.mu.Unlock()
+	c.addRegion(nil, []byte("t"), nil, nil, "rs2:1") // the merged region
+	res := make(chan string, 2)
+	go func() { res <- get("b") }()
+	go func() { res <- get("y") }()
+	for i := 0; i < 400; i++ {
+		c.mu.Lock()
+		n := c.metaParked
+		c.mu.Unlock()
+		if n >= 2 {
+			break
+		}
+		time.Sleep(2 * time.Millisecond)
+	}
+	c.mu.Lock()
+	c.metaHold = nil
+	c.mu.Unlock()
+	close(hold)
+	r1, r2 := "blocked", "blocked"
+	select {
+	case r1 = <-res:
+	case <-time.After(5 * time.Second):
+	}
+	select {
+	case r2 = <-res:
+	case <-time.After(5 * time.Second):
+	}
+	settle()
+	unavailable := 0
+	for _, ok := range sc.v.VerifAvailability() {
+		if !ok {
+			unavailable++
+		}
+	}
+	if w1 != "ok" || w2 != "ok" {
+		r1 = "setup-" + w1 + w2
+	}
+	return fmt.Sprintf("c04 script merge-race %s,%s unavailable=%d", r1, r2, unavailable)
+}
+
 // probeFatalScenario (C04): the availability probe of a region is answered with an application
 // exception that is none of the classes the client knows (e.g. the user may not read the table).
 // That says nothing against the region being there: requests go through and get their own answers.
@@ -1543,6 +1613,12 @@ func init() {
 			if shard == 2%nsh {
 				emit(probeFatalScenario())
 			}
+			if shard == 3%nsh {
+				emit(strings.Replace(probeAfterDeath(), "c09 script", "c04 script", 1))
+			}
+			for i := shard; i < 24; i += nsh {
+				emit(mergeRaceScenario())
+			}
 		})
 	}
 	// C01, wire level: the same sequential scenarios; the monitor checks that every request that
@@ -1593,6 +1669,10 @@ func init() {
 			if shard == 3%nsh {
 				emit(lateBatchErrorScenario())
 			}
+			if shard == 4%nsh {
+				emit(dialCloseScenario("close"))
+				emit(dialCloseScenario("ctx"))
+			}
 		})
 	}
 	props["C09"] = func(tier string, seed uint64, out *Out) {
@@ -1613,6 +1693,11 @@ func init() {
 			}
 			if shard == 1%nsh && !raceChild {
 				emit(metaColocatedScenario())
+			}
+			if !raceChild {
+				for i := shard; i < 24; i += nsh {
+					emit(strings.Replace(mergeRaceScenario(), "c04 script", "c09 script", 1))
+				}
 			}
 			if !raceChild {
 				for i := shard; i < 20*n; i += nsh {
